@@ -163,7 +163,9 @@ fn gen_line(rng: &mut Rng, geographic: bool, max_cols: usize) -> String {
             if k == 6 {
                 toks.push(format!("# trailing {}", rng.below(100)));
             }
-            let sep = *rng.pick(&[" ", "  ", "\t", " \t"]);
+            // columns are separated by white space: blanks and tabs, but now and then
+            // also a vertical tab, form feed, no-break space, em space or ideographic space
+            let sep = if rng.chance(0.06) { *rng.pick(&["\u{b}", "\u{c}", "\u{a0}", "\u{2003}", "\u{3000}", "\u{85}"]) } else { *rng.pick(&[" ", "  ", "\t", " \t"]) };
             let mut line = toks.join(sep);
             if rng.chance(0.15) {
                 line = format!("  {}  ", line);
@@ -623,9 +625,11 @@ impl Engine for KpSim {
                                 rec.probe("hard_read_error");
                             }
                         }
-                        if let Some(pos) = seen.iter().position(|b| *b == 0xFF) {
-                            // lines() fails at the line holding the invalid byte: everything
-                            // up to the preceding newline is still delivered
+                        if let Err(e) = std::str::from_utf8(&seen) {
+                            // lines() fails at the line holding the first invalid sequence (an
+                            // injected 0xFF, or a multi-byte character cut by a premature end):
+                            // everything up to the preceding newline is still delivered
+                            let pos = e.valid_up_to();
                             let line_start = seen[..pos].iter().rposition(|b| *b == b'\n').map_or(0, |p| p + 1);
                             seen.truncate(line_start);
                             fault_here = Some("utf8");
